@@ -305,10 +305,14 @@ class Executor:
             if isinstance(n.op, ast.USub):
                 return lift(lambda a: Num(-a.q) if isinstance(a, Num) else sc_bin("-", Num(0), a, n), [v], n)
             if isinstance(n.op, (ast.Invert, ast.Not)):
+                if isinstance(v, Static) and isinstance(v.v, bool):
+                    return Static(not v.v)
                 return lift(lambda a: self.bnot(a, n), [v], n)
             fail(n, "unsupported unary operator")
         if isinstance(n, ast.BinOp):
             a, b = self.expr(n.left, sc), self.expr(n.right, sc)
+            if isinstance(n.op, ast.Add) and isinstance(a, Obj) and isinstance(a.fields.get("__add__"), Prim):
+                return a.fields["__add__"].fn(self, n, [b], {})
             ops = {ast.Add: "+", ast.Sub: "-", ast.Mult: "*", ast.Div: "/"}
             if type(n.op) in ops:
                 return lift(lambda x, y: sc_bin(ops[type(n.op)], x, y, n), [a, b], n)
@@ -352,6 +356,9 @@ class Executor:
             if len(n.ops) != 1:
                 fail(n, "chained comparison")
             a, b = self.expr(n.left, sc), self.expr(n.comparators[0], sc)
+            if isinstance(n.ops[0], (ast.Eq, ast.NotEq)) and isinstance(a, Obj) and isinstance(a.fields.get("__eq__"), Prim):
+                r = a.fields["__eq__"].fn(self, n, [b], {})
+                return r if isinstance(n.ops[0], ast.Eq) else self.bnot(r, n)
             if isinstance(n.ops[0], (ast.Is, ast.IsNot)):
                 if isinstance(b, Static) and b.v is None:
                     r = isinstance(a, Static) and a.v is None
@@ -460,6 +467,8 @@ class Executor:
             return tuple(self.select(c, x, y, n) for x, y in zip(a, b))
         # an object that also stands for an opaque value (e.g. a policy with callable methods) takes part in a select as that value
         # (the result keeps the object's methods: they are oracles that do not depend on which value is selected)
+        if isinstance(a, Obj) and isinstance(b, Obj) and "@rebuild" in a.fields and "@rebuild" in b.fields:
+            return a.fields["@rebuild"](self.select(c, a.fields["@name"], b.fields["@name"], n).t)
         for x, y in ((a, b), (b, a)):
             if isinstance(x, Obj) and "@name" in x.fields and isinstance(y, Sc):
                 a2 = a.fields["@name"] if a is x else a
@@ -1077,7 +1086,7 @@ def run_function(ex: Executor, fn: ast.FunctionDef, bindings: dict, module_scope
     scope.update({k: v for k, v in bindings.items() if not k.startswith("@")})
     out = ex.block(fn.body, scope)
     if out is None:
-        raise TranslateError(f"{fn.name}: no return value")
+        return Static(None)       # a procedure: what it does is recorded by the oracles of the specification
     return out
 
 
